@@ -33,6 +33,19 @@ theorem gate (c : Cfg) (e : Env) (r : Req) (v : View) (h : List (Str × Str))
         (serveV c e r v).calls = [Call.refresh (getToken e.decompress v .refresh)]) ) :=
   Oidc.Handler.gate c e r v h hf
 
+/-- the gate for the request as net/http delivers it: `digest` reads the scheme, the host, the JSON preference and the CORS
+    preflight off the headers; whatever headers (any names, any values — Accept, Origin, forwarding headers, anything else), method
+    and target a request carries, it is forwarded only under the conditions of `gate` -/
+theorem gate_any_request (c : Cfg) (e : Env) (q : RawReq) (v : View) (h : List (Str × Str))
+    (hf : (serveV c e (digest q) v).resp = .forward h) :
+    excludedPath c q.path = false ∧ q.path ≠ c.logout ∧ q.path ≠ c.callback ∧
+    (getAuth c.maxAge e.now v = true ∨ ∃ idRaw rt', e.refresh (getToken e.decompress v .refresh) = .ok idRaw rt' ∧ e.verifyTok idRaw = true) := by
+  obtain ⟨h1, h2, h3, h4⟩ := gate c e (digest q) v h hf
+  refine ⟨h1, h2, h3, ?_⟩
+  rcases h4 with ⟨ha, _⟩ | ⟨idRaw, rt', _, hr, hv, _⟩
+  · exact .inl ha
+  · exact .inr ⟨idRaw, rt', hr, hv⟩
+
 /-- every other answer on a protected path: login redirect, 403, 401 or the authenticated CORS preflight — never the
     downstream handler -/
 theorem protected_answers (c : Cfg) (e : Env) (r : Req) (v : View)
